@@ -10,4 +10,8 @@ pub broadcast axiom fn axiom_string_str_obeys_eq()
     ensures #[trigger] <String as PartialEqSpec<str>>::obeys_eq_spec();
 pub broadcast axiom fn axiom_string_str_eq(a: String, b: &str)
     ensures #[trigger] <String as PartialEqSpec<str>>::eq_spec(&a, b) == (a@ == b@);
-pub broadcast group group_string_eq { axiom_string_obeys_eq, axiom_string_eq, axiom_string_str_obeys_eq, axiom_string_str_eq }
+pub broadcast axiom fn axiom_string_refstr_obeys_eq<'a>()
+    ensures #[trigger] <String as PartialEqSpec<&'a str>>::obeys_eq_spec();
+pub broadcast axiom fn axiom_string_refstr_eq<'a>(a: String, b: &'a str)
+    ensures #[trigger] <String as PartialEqSpec<&'a str>>::eq_spec(&a, &b) == (a@ == b@);
+pub broadcast group group_string_eq { axiom_string_refstr_obeys_eq, axiom_string_refstr_eq, axiom_string_obeys_eq, axiom_string_eq, axiom_string_str_obeys_eq, axiom_string_str_eq }
